@@ -34,12 +34,34 @@ def run(ctx: Ctx):
     ctx.assumptions += ["networkx.astar_path returns a minimum-weight path for an admissible heuristic"]
 
 
+def _heuristic(ctx: Ctx):
+    """(expression handed to A* as `heuristic=`, the function it names): a nested function of route(), a method of the
+    network (`self.<name>`) or a module-level function."""
+    fn = ctx.repo.func(OSM, "OSMRoadNetwork.route")
+    for c in ast.walk(fn.node):
+        if isinstance(c, ast.Call) and flow.dump(c.func).endswith("astar_path"):
+            for k in c.keywords:
+                if k.arg == "heuristic":
+                    h = k.value
+                    if isinstance(h, ast.Name):
+                        f = ctx.repo.func_opt(OSM, f"OSMRoadNetwork.route.{h.id}") or ctx.repo.func_opt(OSM, h.id)
+                    elif isinstance(h, ast.Attribute) and flow.dump(h.value) == "self":
+                        f = ctx.repo.func_opt(OSM, f"OSMRoadNetwork.{h.attr}")
+                    else:
+                        f = None
+                    if f is None:
+                        raise AnalysisError(f"A* heuristic `{flow.dump(h)[:60]}` cannot be resolved to a function")
+                    return flow.dump(h), f
+    raise AnalysisError("OSMRoadNetwork.route: no astar_path call with a heuristic")
+
+
 def search_call(ctx: Ctx):
     fn = ctx.repo.func(OSM, "OSMRoadNetwork.route")
     o, d = fn.params[1:3]
     on = f"extract_node_ids_int({o}.link_id)[1][1]"
     dn = f"extract_node_ids_int({d}.link_id)[1][0]"
-    want = f"nx.astar_path(self.graph, {on}, {dn}, heuristic=_astar_cost_heuristic, weight=TIME_WEIGHT)"
+    hexpr, _ = _heuristic(ctx)
+    want = f"nx.astar_path(self.graph, {on}, {dn}, heuristic={hexpr}, weight=TIME_WEIGHT)"
     n = 0
     all_paths = flow.paths(fn.node)
 
@@ -102,8 +124,11 @@ def search_call(ctx: Ctx):
 
 
 def heuristic(ctx: Ctx):
-    fn = ctx.repo.func(OSM, "OSMRoadNetwork.route._astar_cost_heuristic")
-    s, t = fn.params[:2]
+    _, fn = _heuristic(ctx)
+    ps_ = [x for x in fn.params if x not in ("self", "cls")]
+    if len(ps_) < 2:
+        raise AnalysisError("A* heuristic: expected (source, dest) parameters")
+    s, t = ps_[:2]
     ps = [p for p in flow.paths(fn.node) if p.kind == "return"]
     if len(ps) != 1:
         raise AnalysisError("_astar_cost_heuristic: expected one return")
